@@ -16,3 +16,136 @@ class NodeS:
 
     def __repr__(self):
         return "NodeS(%s)" % sorted(self.__dict__)
+
+
+# ------------------------------------------------------------------------------------------------------------------
+# class family for C17: one class per reduction shape of the copy/pickle protocol
+import collections
+import dataclasses
+import enum
+
+
+class Plain:
+    """instance __dict__ only"""
+
+
+class Slots:
+    __slots__ = ("a", "b")
+
+    def __init__(self, a=None, b=None):
+        self.a = a
+        self.b = b
+
+
+class SlotsDict:
+    __slots__ = ("a", "__dict__")
+
+    def __init__(self, a=None):
+        self.a = a
+
+
+class GetSet:
+    """custom state through __getstate__ / __setstate__"""
+
+    def __init__(self, payload=None):
+        self.payload = payload
+        self.derived = ("derived", payload is None)
+
+    def __getstate__(self):
+        return {"p": self.payload}
+
+    def __setstate__(self, state):
+        self.payload = state["p"]
+        self.derived = ("derived", self.payload is None)
+
+
+class NewArgs:
+    """__new__ needs arguments, supplied by __getnewargs__"""
+
+    def __new__(cls, tag, size):
+        self = object.__new__(cls)
+        self.tag = tag
+        self.size = size
+        return self
+
+    def __getnewargs__(self):
+        return (self.tag, self.size)
+
+
+def rebuild(kind, *args):
+    r = Reduced(kind)
+    r.args = args
+    return r
+
+
+class Reduced(list):
+    """__reduce__ returning 2-5 tuples (callable, args[, state[, listitems[, dictitems]]]); list subclass with a dict of extras"""
+
+    def __init__(self, kind=2):
+        list.__init__(self)
+        self.kind = kind
+        self.args = ()
+        self.extra = {}
+
+    def __setitem__(self, k, v):
+        if isinstance(k, int):
+            list.__setitem__(self, k, v)
+        else:
+            self.extra[k] = v
+
+    def __reduce__(self):
+        base = (rebuild, (self.kind,) + tuple(self.args))
+        if self.kind == 2:
+            return base
+        # the state never overlaps with what the dict items rebuild: copy applies state before items, pickle after
+        state = {"kind": self.kind, "args": self.args}
+        if self.kind < 5:
+            state["extra"] = self.extra
+        if self.kind == 3:
+            return base + (state,)
+        if self.kind == 4:
+            return base + (state, iter(list(self)))
+        return base + (state, iter(list(self)), iter(list(self.extra.items())))
+
+
+class ListSub(list):
+    pass
+
+
+class DictSub(dict):
+    pass
+
+
+class SetSub(set):
+    pass
+
+
+class TupleSub(tuple):
+    pass
+
+
+class StrSub(str):
+    pass
+
+
+class IntSub(int):
+    pass
+
+
+class Color(enum.Enum):
+    RED = 1
+    GREEN = "g"
+
+
+Point = collections.namedtuple("Point", ["x", "y"])
+
+
+@dataclasses.dataclass(frozen=True)
+class Frozen:
+    """state-dependent __hash__"""
+    x: int
+    y: str = "y"
+
+
+def func(x=None):
+    return x
